@@ -6,6 +6,7 @@ package zzverifw
 
 import (
 	"fmt"
+	"strings"
 
 	"github.com/Syuparn/pangaea/object"
 	rt "github.com/Syuparn/pangaea/zzverifrt"
@@ -54,6 +55,25 @@ var c07Templates = []c07T{
 	{"statement after a defer", `df := {|x| defer mark(7); step(1); mark(9)}`, `df(0); mark(10)`, 1, 9, false},
 	{"second statement of a method body", `mo := {go: m{|| step(1); step(2); mark(9)}}`, `mo.go; mark(10)`, 2, 9, false},
 	{"predicate of a native loop helper", "", `[1, 2, 3].doUntil {|x| step(x) == 5}.A`, 3, 0, false},
+	// callbacks of the native Iterable methods, and native combinators consuming an iterator whose
+	// element function raises ("native iterator: ..." = the slot runs inside the body of an
+	// iterator that A is consuming)
+	{"native map", "", `[1, 2, 3].map {|x| step(x)}`, 3, 0, false},
+	{"native select", "", `[1, 2, 3].select {|x| step(x) > 0}`, 3, 0, false},
+	{"native exclude", "", `[1, 2, 3].exclude {|x| step(x) > 5}`, 3, 0, false},
+	{"native all?", "", `[1, 2, 3].all? {|x| step(x) > 0}`, 3, 0, false},
+	{"native any?", "", `[1, 2, 3].any? {|x| step(x) > 5}`, 3, 0, false},
+	{"native reduce", "", `[1, 2, 3].reduce({|acc, x| acc + step(x)}, init: 0)`, 3, 0, false},
+	{"native keyBy", "", `[1, 2, 3].keyBy {|x| step(x)}`, 3, 0, false},
+	{"native iterator: lazyMap", "", `[1, 2, 3].lazyMap {|x| step(x)}.A`, 3, 0, false},
+	{"native iterator: lazyMap then append", "", `[1, 2, 3].lazyMap {|x| step(x)}.append(9).A`, 3, 0, false},
+	{"native iterator: lazyMap then prepend", "", `[1, 2, 3].lazyMap {|x| step(x)}.prepend(9).A`, 3, 0, false},
+	{"native iterator: lazyMap then chain", "", `[1, 2, 3].lazyMap {|x| step(x)}.chain([8, 9]).A`, 3, 0, false},
+	{"native iterator: lazyMap then withI", "", `[1, 2, 3].lazyMap {|x| step(x)}.withI.A`, 3, 0, false},
+	{"native iterator: lazyMap then zip", "", `[1, 2, 3].lazyMap {|x| step(x)}.zip([7, 8, 9]).A`, 3, 0, false},
+	{"native iterator: acc", "", `[1, 2, 3].acc({|a, x| a + step(x)}, init: 0).A`, 3, 0, false},
+	{"native iterator: while", "", `[1, 2, 3].while {|x| step(x) > 0}.A`, 3, 0, false},
+	{"native iterator: until", "", `[1, 2, 3].until {|x| step(x) > 5}.A`, 3, 0, false},
 }
 
 // containsErr scans a result value for a *PanErr stored as element, key, bound or value.
@@ -107,7 +127,7 @@ func H_C07_inject() {
 	// a StopIterErr raised inside the body of an iterator that a chain or A is consuming IS
 	// the iterator protocol's end signal (C14: the consumer stops at the first StopIterErr),
 	// so that error kind is outside the domain for the template whose slots run there
-	if t.name == "predicate of a native loop helper" {
+	if t.name == "predicate of a native loop helper" || strings.HasPrefix(t.name, "native iterator: ") {
 		rt.Assume(h.Kind != "StopIterErr")
 	}
 	K := rt.Int64()
